@@ -176,6 +176,13 @@ type FullU struct {
 	Users []UUser `json:"users" validate:"omitempty,max=1,dive"`
 }
 
+// Env is generic; the name of an instantiation with a named type argument contains dots and slashes.
+type Env[T any] struct {
+	Token string `json:"token" validate:"required,min=12"`
+	Note  string `json:"note" validate:"omitempty,max=3"`
+	V     T      `json:"v"`
+}
+
 // FullV has a Validate() method of its own (interface strategy, and WithRunAll together with tags).
 type FullV struct {
 	Email string `json:"email" validate:"required,email"`
@@ -200,6 +207,7 @@ var namedTypes = map[string]reflect.Type{
 	"FullV": reflect.TypeOf(FullV{}),
 	"FullE": reflect.TypeOf(FullE{}),
 	"FullU": reflect.TypeOf(FullU{}),
+	"FullG": reflect.TypeOf(Env[FullInner]{}),
 	"FullA": reflect.TypeOf(FullA{}),
 	"FullB": reflect.TypeOf(FullB{}),
 	"FullC": reflect.TypeOf(FullC{}),
@@ -397,6 +405,23 @@ func genTypeIn(r *hx.Rand, depth int, used map[string]bool, embeds bool) *TypeT 
 			used[key(name)] = true
 		}
 		t.Fields = append(t.Fields, f)
+	}
+	// two embedded structs that declare the same JSON name at the same depth: encoding/json drops both,
+	// the validator must at least be consistent about which one it means (first in declaration order)
+	var embedded []*TypeT
+	for i := range t.Fields {
+		if t.Fields[i].Embed {
+			embedded = append(embedded, t.Fields[i].Sub)
+		}
+	}
+	if len(embedded) >= 2 && r.Chance(1, 2) {
+		a, b := embedded[0], embedded[len(embedded)-1]
+		for _, fa := range a.Fields {
+			if !fa.Embed && fa.TagForm <= 1 {
+				b.Fields = append(b.Fields, FieldT{JSON: fa.JSON, Kind: "string", Tag: hx.Pick(r, []string{"min=4", "max=2", "required", "len=3"})})
+				break
+			}
+		}
 	}
 	return t
 }
@@ -636,7 +661,7 @@ func genCase(r *hx.Rand, tier string) caseT {
 	switch r.Intn(10) {
 	case 0, 1: // full mode on a compiled named type
 		c.Mode = 1
-		c.Named = hx.Pick(r, []string{"FullA", "FullB", "FullC", "FullE", "FullU"})
+		c.Named = hx.Pick(r, []string{"FullA", "FullB", "FullC", "FullE", "FullU", "FullG"})
 		t := describe(namedTypes[c.Named])
 		b, _ := json.Marshal(genObject(r, t, 0))
 		c.Body = string(b)
@@ -1730,6 +1755,7 @@ func fixedCases() []caseT {
 		{Body: `{"F0":"ab","F1":"x"}`, T: &TypeT{Fields: []FieldT{{JSON: "F0", Kind: "string", Tag: "min=3", TagForm: 2}, {JSON: "F1", Kind: "string", Tag: "min=3", TagForm: 3}}}},                                                           // K05j
 		{Body: `{"F0":"ab","F1":"x"}`, T: &TypeT{Fields: []FieldT{{JSON: "F0", Kind: "string", Tag: "min=3", TagForm: 2}, {JSON: "F1", Kind: "string", Tag: "min=3", TagForm: 3}}}, Mode: 1},                                                  // K05j (full)
 		{Body: `{"name":"ab","F1":"x","-":"q"}`, T: &TypeT{Fields: []FieldT{{JSON: "name", Kind: "string", Tag: "min=2"}, {JSON: "F1", Kind: "string", Tag: "required", TagForm: 4}, {JSON: "-", Kind: "string", Tag: "min=3", TagForm: 5}}}}, // K05k
+		{Body: `{"token":"q5_short","note":"toolong","v":{"name":"ab"}}`, Named: "FullG", Mode: 1, Redact: []string{"token"}},                                                                                                                 // generic type name with dots
 		{Body: `{"1":"abc","2":{"3":"x"}}`, T: &TypeT{Fields: []FieldT{{JSON: "1", Kind: "string", Tag: "email"}, {JSON: "2", Kind: "struct", Sub: &TypeT{Fields: []FieldT{{JSON: "3", Kind: "string", Tag: "min=2"}}}}}}},                    // K05d
 	}
 }
